@@ -1,3 +1,9 @@
+// STATUS: NOT WIRED INTO ANY CHECK (no checks/C42.json, no overlay).  The harness compiles
+// and runs, but CBMC needs > 8 GB / > 10 min for a single `WriteState::add` (see the
+// final report): the table lives in one untyped byte region accessed through pointer
+// casts at offsets (`read_off`/`write_off`) that are themselves loaded from that
+// region, so after the first offset swap every access is a symbolic-offset
+// byte_extract/byte_update over the whole region.  Kept for reference.
 // C42 support - child module of aranya_fast_channels::shm::posix.
 //
 // Lets a check place a `Mapping` over ordinary (heap) memory, bypassing
